@@ -223,16 +223,24 @@ def powq(a, b):
     return expb(a, b)
 
 
+def _trig_arg(a):
+    f = float(a)
+    if abs(f) > 1e5:
+        # sin / cos of a huge argument: the rounding of the argument alone moves the result by |a| * 1e-16 - ill-conditioned
+        raise IllCond("trig of a huge argument")
+    return f
+
+
 def sin(a):
     if isx(a) and a == 0:
         return Fraction(0)
-    return math.sin(float(a))
+    return math.sin(_trig_arg(a))
 
 
 def cos(a):
     if isx(a) and a == 0:
         return Fraction(1)
-    return math.cos(float(a))
+    return math.cos(_trig_arg(a))
 
 
 def dv(e, v, p, cx):
